@@ -50,6 +50,9 @@ def run(ctx):
                 # the DOCUMENTED way to keep series independent: the caller passes beta x boundary mask as a per-pair
                 # vector; one member series has exactly W rows (a single stacked window, isolated by two zeros)
                 cfg["masked_vector"] = True
+                if i % 2 == 1:
+                    cfg["logging"] = "DEBUG"      # with a listener on the library's diagnostics
+                    cfg["limit"] = max(2, cfg["limit"])
                 cfg["lens"][ctx.rng.randrange(len(cfg["lens"]))] = cfg["W"]
                 if len(cfg["lens"]) == 1:
                     cfg["lens"].append(cfg["W"] + 40)
@@ -127,6 +130,8 @@ def run(ctx):
             m0[np.cumsum(lens0)[:-1] - 1] = 0
             cfg_run = dict(cfg, beta=float(cfg["beta"]) * m0)
             ctx.count("runs_with_caller_masked_vector")
+            if cfg.get("logging"):
+                ctx.count("runs_with_caller_masked_vector_and_debug_logging")
         with tu.patched(main_loop, "fit_stacked_data", fit):
             res, tr, err, series = tu.execute(cfg_run, record_states=False)
         ctx.count(f"series:{len(cfg['lens'])}")
